@@ -122,6 +122,9 @@ func fmtValue(fr *frame, v value, t types.Type, verb rune, plus, sharp bool, dep
 			return "<nil>"
 		}
 		if verb == 'p' || depth > 0 {
+			if sharp && verb == 'v' {
+				return fmt.Sprintf("(%s)(0x%x)", typeString(t), uintptr(unsafe.Pointer(tv)))
+			}
 			return fmt.Sprintf("0x%x", uintptr(unsafe.Pointer(tv)))
 		}
 		if pt, ok := t.Underlying().(*types.Pointer); ok {
@@ -135,6 +138,17 @@ func fmtValue(fr *frame, v value, t types.Type, verb rune, plus, sharp bool, dep
 		var et types.Type
 		if st, ok := t.Underlying().(*types.Slice); ok {
 			et = st.Elem()
+		}
+		if sharp && verb == 'v' {
+			// Go-syntax representation
+			if tv == nil {
+				return typeString(t) + "(nil)"
+			}
+			parts := make([]string, len(tv))
+			for k, e := range tv {
+				parts[k] = fmtValue(fr, e, et, verb, plus, sharp, depth+1)
+			}
+			return typeString(t) + "{" + strings.Join(parts, ", ") + "}"
 		}
 		if et != nil {
 			if b, ok := et.Underlying().(*types.Basic); ok && b.Kind() == types.Uint8 && (verb == 's' || verb == 'x' || verb == 'q') {
@@ -162,6 +176,13 @@ func fmtValue(fr *frame, v value, t types.Type, verb rune, plus, sharp bool, dep
 		return "[" + strings.Join(parts, " ") + "]"
 	case structure:
 		st, _ := t.Underlying().(*types.Struct)
+		if sharp && verb == 'v' && st != nil {
+			parts := make([]string, len(tv))
+			for k, e := range tv {
+				parts[k] = st.Field(k).Name() + ":" + fmtValue(fr, e, st.Field(k).Type(), verb, plus, sharp, depth+1)
+			}
+			return typeString(t) + "{" + strings.Join(parts, ", ") + "}"
+		}
 		parts := make([]string, len(tv))
 		for k, e := range tv {
 			var ft types.Type
